@@ -74,6 +74,15 @@ def universe(thorough: bool, big: bool = False) -> typing.List[TypeDef]:
                 continue
             pre = "" if k == 0 else f"truncated uint{k} p\n"
             out.append(TypeDef(f"L2{et}{kt}k{k}", "L2", f"{pre}{ee}{ke} x\ntruncated uint3 tail\n@sealed\n", core))
+    # element types of non-standard width, one bit below / above a storage boundary (element-wise paths; the Python
+    # target keeps them in NumPy arrays of the next standard width)
+    for w in (2, 3, 7, 9, 15, 17, 31, 33, 63):
+        for sg, se in (("i", f"int{w}"), ("us", f"uint{w}"), ("ut", f"truncated uint{w}")):
+            for kt, ke in (("f3", "[3]"), ("v3", "[<=3]")):
+                for k in (0, 3):
+                    pre = "" if k == 0 else f"truncated uint{k} p\n"
+                    core = w in (7, 15, 31, 63) and sg != "ut" and ((kt == "f3" and k == 0) or (kt == "v3" and k == 3 and w in (7, 63)))
+                    out.append(TypeDef(f"L2w{sg}{w}{kt}k{k}", "L2", f"{pre}{se}{ke} x\ntruncated uint3 tail\n@sealed\n", core))
     for et, ee in (("b", "bool"), ("u8", "uint8")):
         for kt, ke in (("v255", "[<=255]"), ("v256", "[<=256]")):
             for k in (0, 1):
@@ -134,6 +143,13 @@ def universe(thorough: bool, big: bool = False) -> typing.List[TypeDef]:
     out.append(TypeDef("N2", "L3i", "uint8 h\nNS.Ivd.1.0 m\nNS.Iud.1.0[<=2] us\n@extent 400\n", True, ("Ivd", "Iud")))
     out.append(TypeDef("L3N3", "L3", "truncated uint3 p\nNS.N2.1.0 n\nNS.N2.1.0[<=1] ns\nuint8 tail\n@sealed\n", True, ("N2",)))
     out.append(TypeDef("L3N3d", "L3", "NS.N2.1.0 n\nuint8 tail\n@extent 2000\n", True, ("N2",)))
+    # arrays with SEVERAL elements whose element type itself holds a composite (per-element nested objects must stay apart)
+    out.append(TypeDef("Mid", "L3i", "NS.Ifs.1.0 i\nuint8 t\n@sealed\n", True, ("Ifs",)))
+    out.append(TypeDef("Mu", "L3i", "@union\nNS.Ifs.1.0 c\nuint8 a\n@sealed\n", True, ("Ifs",)))
+    out.append(TypeDef("L3Mida3", "L3", "NS.Mid.1.0[3] x\nuint8 tail\n@sealed\n", True, ("Mid",)))
+    out.append(TypeDef("L3Midv3", "L3", "truncated uint3 p\nNS.Mid.1.0[<=3] x\nuint8 tail\n@sealed\n", True, ("Mid",)))
+    out.append(TypeDef("L3Mua2", "L3", "NS.Mu.1.0[2] x\nNS.Mu.1.0[<=2] y\n@sealed\n", True, ("Mu",)))
+    out.append(TypeDef("L3N3a", "L3", "NS.N2.1.0[2] ns\nuint8 tail\n@sealed\n", True, ("N2",)))
     # ---- L4 unions: all ordered pairs of alternatives
     alts = [("b", "bool"), ("u3", "truncated uint3"), ("i13", "int13"), ("f16", "float16"), ("v8", "uint8[<=3]"), ("vb", "bool[<=9]"), ("cf", "NS.Ifs.1.0"), ("cv", "NS.Ivd.1.0")]
     for (a, ae), (b, be) in itertools.product(alts, alts):
